@@ -10,6 +10,7 @@ mod c12;
 mod c16;
 mod c18;
 mod c13;
+mod c19;
 
 use common::*;
 use std::path::PathBuf;
@@ -40,6 +41,7 @@ fn main() {
         "c16" => c16::run(&mut out, tier, seed, replay),
         "c18" => c18::run(&mut out, tier, seed, replay),
         "c13" => c13::run(&mut out, tier, seed, replay),
+        "c19" => c19::run(&mut out, tier, seed, replay),
         _ => {
             eprintln!("unknown property {}", prop);
             std::process::exit(2);
